@@ -607,6 +607,44 @@ def run(tier, seed, work):
                 fill = re.search(r"@(_ZN3cnl5_impl4fill\w+)\(", l)
                 if fill and fam.get(n2) != "scaled_positive":
                     r.violation("who-may-call/fill/" + dem[n2][:100], "%s calls cnl::_impl::fill directly" % dem[n2][:120], {"caller": dem[n2]})
+    # E. bound passing: a function of the family that calls another one hands on ITS OWN `last` as the callee's `last`.  The
+    # store rule is per function (every store is guarded by a comparison with the function's `last` parameter), so it says
+    # something about the caller's buffer only if that parameter is the caller's bound all the way down (M-C13-8: a
+    # "buffer is large enough" fast path called to_chars_natural with last = nullptr)
+    n_pass = 0
+    for n2, f2 in mod.functions.items():
+        if n2 not in fam or len(f2.params) < 2:
+            continue
+        own_last = f2.params[1][1]
+        for lab in f2.order:
+            for l in f2.blocks[lab]:
+                for m in re.finditer(r"(?:call|invoke)\s[^@]*@([\w.$]+)\(", l):
+                    callee = m.group(1)
+                    if callee not in fam:
+                        continue
+                    args, depth, cur = [], 0, ""
+                    for ch in l[m.end():]:
+                        if ch in "([{<":
+                            depth += 1
+                        elif ch in ")]}>":
+                            if depth == 0:
+                                break
+                            depth -= 1
+                        if ch == "," and depth == 0:
+                            args.append(cur.strip())
+                            cur = ""
+                        else:
+                            cur += ch
+                    args.append(cur.strip())
+                    if len(args) < 2:
+                        r.broke("bound-passing rule: cannot read the arguments of the call to %s in %s" % (dem[callee][:80], dem[n2][:80]))
+                        continue
+                    n_pass += 1
+                    got = args[1].split()[-1]
+                    if got != own_last:
+                        r.violation("bound/" + dem[n2][:100], "%s calls %s with `%s` as the end of the buffer, not with its own `last` (%s): the callee's bounds checks no longer refer to the caller's buffer"
+                                    % (dem[n2][:140], dem[callee][:100], got, own_last), {"caller": dem[n2], "callee": dem[callee], "call": l.strip()[:300]}, finding_key="bound-passing")
+    common.floor_check(r, "family-internal calls under the bound-passing rule", n_pass, 50)
     # fixed-capacity users reach to_chars
     users = {"use_static": "to_chars_static", "use_string": "to_string", "use_stream": "operator<<"}
     edges = dict((n, set(m.group(1) for lab in f.order for l in f.blocks[lab] for m in re.finditer(r"(?:call|invoke)\s[^@]*@([\w.$]+)\(", l))) for n, f in mod.functions.items())
@@ -639,7 +677,7 @@ def run(tier, seed, work):
         "rule": "non-trivial = judged capacity fact, checked store, checked failure return",
         "capacity_facts": len(F), "capacity_facts_proved": nf["proved"], "capacity_rejected_by_library": nf["rejected"],
         "layout_lines": len(LL), "layout_proved": lcnt["proved"], "layout_refuted": lcnt["refuted"], "layout_undecided": lcnt["undecided"], "layout_lines_with_real_fill": n_full,
-        "functions_in_family": len(fam), "buffer_stores_checked": n_st, "value_too_large_returns_checked": n_res, "fixed_capacity_users_reaching_to_chars": nu,
+        "functions_in_family": len(fam), "buffer_stores_checked": n_st, "bound_passing_calls_checked": n_pass, "value_too_large_returns_checked": n_res, "fixed_capacity_users_reaching_to_chars": nu,
         "samples": samples[:6] + [{"function": dem[n][:140], "kind": k} for n, k in sorted(fam.items())[:6]],
         "exhaustive": False,
     }
